@@ -28,6 +28,29 @@ Check (ask_query_correct : forall (L : exprlib),
   forall D (p : pattern L) b, NoDup D -> slice_free L p = true ->
   run_query L D (QAsk None p) = ABool b ->
   b = match spec L D p None with [] => false | _ => true end).
+(* ... and for EVERY supported pattern, OFFSET / LIMIT anywhere (sub-selects): the engine
+   returns an admissible answer of the relational form of the same semantics; without
+   OFFSET / LIMIT the admissible answers are exactly the orderings of [spec], and [spec] is
+   always admissible *)
+Check (select_answers : forall (L : exprlib),
+  (forall c l, Permutation (sorter L c l) l) ->
+  forall D : dataset, NoDup D -> forall (p : pattern L) g vs rows,
+  select L (ds_qm D) (ds_names D) p [g] None = Ok vs rows ->
+  answers L D p g (map bv rows) /\ Forall (row_inv vs) rows).
+Check (answers_spec : forall L D (p : pattern L) g rows,
+  slice_free L p = true -> answers L D p g rows -> Permutation rows (spec L D p g)).
+Check (spec_answers : forall L D (p : pattern L) g,
+  supported L p = true -> answers L D p g (spec L D p g)).
+Check (select_query_answers : forall (L : exprlib),
+  (forall c l, Permutation (sorter L c l) l) ->
+  forall D (p : pattern L) vs rows, NoDup D ->
+  run_query L D (QSelect None p) = ARows vs rows ->
+  vs = out_vars L p /\ exists sols, answers L D p None sols /\ rows = map (mu_row vs) sols).
+Check (ask_query_answers : forall (L : exprlib),
+  (forall c l, Permutation (sorter L c l) l) ->
+  forall D (p : pattern L) b, NoDup D ->
+  run_query L D (QAsk None p) = ABool b ->
+  exists sols, answers L D p None sols /\ b = match sols with [] => false | _ => true end).
 (* OFFSET / LIMIT *)
 Check (slice_operator : forall L qm gnames (p : pattern L) start len gm b,
   select L qm gnames (Slice p start len) gm b =
@@ -166,6 +189,11 @@ Print Assumptions bgp_rec_is_spec.
 Print Assumptions select_correct.
 Print Assumptions select_query_correct.
 Print Assumptions ask_query_correct.
+Print Assumptions select_answers.
+Print Assumptions answers_spec.
+Print Assumptions spec_answers.
+Print Assumptions select_query_answers.
+Print Assumptions ask_query_answers.
 Print Assumptions slice_operator.
 Print Assumptions slice_top_correct.
 Print Assumptions unsupported_is_error.
